@@ -131,7 +131,7 @@ func c17RouteFeatures() []routeFeature {
 			"responses|200|schema|$ref": "#/definitions/someModel", "responses|201|description": "created fine"}),
 		kv("extensions", []string{"Extensions:", "x-some-flag: true", "x-some-list:", "  - item1", "  - item2"}, map[string]interface{}{"x-some-flag": true, "x-some-list": []interface{}{"item1", "item2"}}),
 		kv("inline-parameters", []string{"Parameters:", "+ name: limit", "  in: query", "  description: how many", "  required: true", "  type: integer", "  min: 1", "  max: 50", "+ name: tag", "  in: query", "  type: string", "  enum: a,b"}, map[string]interface{}{
-			"parameters|0|name": "limit", "parameters|0|in": "query", "parameters|0|required": true, "parameters|0|type": "integer", "parameters|0|minimum": 1.0, "parameters|0|maximum": 50.0, "parameters|1|name": "tag", "parameters|1|enum": []interface{}{"a", "b"}}),
+			"parameters|name=limit|name": "limit", "parameters|name=limit|in": "query", "parameters|name=limit|required": true, "parameters|name=limit|type": "integer", "parameters|name=limit|minimum": 1.0, "parameters|name=limit|maximum": 50.0, "parameters|name=tag|name": "tag", "parameters|name=tag|enum": []interface{}{"a", "b"}}),
 		kv("summary+description", nil, map[string]interface{}{"summary": "Summary line of the route.", "description": "Longer description\nover two lines."}),
 	}
 }
@@ -482,6 +482,19 @@ func lookup(doc interface{}, path []string) (interface{}, bool) {
 			}
 			cur = v
 		case []interface{}:
+			if strings.HasPrefix(p, "name=") { // the element whose "name" is ...
+				found := false
+				for _, e := range t {
+					if m, ok := e.(map[string]interface{}); ok && m["name"] == p[len("name="):] {
+						cur, found = e, true
+						break
+					}
+				}
+				if !found {
+					return nil, false
+				}
+				continue
+			}
 			var i int
 			if _, err := fmt.Sscanf(p, "%d", &i); err != nil || i >= len(t) {
 				return nil, false
